@@ -7,7 +7,27 @@ def H(exe, harness, quick=2, thorough=3, args=None, **kw):
     return d
 
 
+C19_HARNESSES = [
+    H("cancel", "canc_generic", 3, 4),
+    H("cancel", "canc_generic", 3, 4, args=[0, 1]),
+    H("cancel", "canc_generic", 3, 4, args=[0, 0, 1]),
+    H("cancel", "canc_generic", 3, 4, args=[0, 0, 0, 1]),
+    H("cancel", "canc_generic_early", 3, 4, args=[1, 0, 1]),
+    H("cancel", "canc_generic_early", 3, 4, args=[1, 0, 0]),
+    H("cancel", "canc_generic_early", 3, 4, args=[1, 0, 0, 1]),
+    H("cancel", "canc_evt2", 2, 3),
+    H("cancel", "canc_basic", 2, 3),
+    H("cancel", "canc_detach", 3, 4, args=[0]),
+    H("cancel", "canc_detach", 3, 4, args=[1]),
+    H("cancel", "canc_detach", 3, 4, args=[2]),
+    H("cancel", "canc_stoponreq", 3, 4, args=[0]),
+    H("cancel", "canc_stoponreq", 3, 4, args=[1]),
+    H("cancel", "canc_canary", 4, 6, args=[0]),
+    H("cancel", "canc_canary", 4, 6, args=[1]),
+]
+
 CHECKS = {
+    "C19": {"harnesses": C19_HARNESSES},
     "C03": {
         "harnesses": [
             H("stop", "stop_req2_cb", 3, 4),
